@@ -181,6 +181,37 @@ def run(tier, seed, ev):
                 ev.cls((cls, os.path.basename(f).split("_")[0] if cls not in ("extreme", "manydec") else os.path.basename(f), kind))
         res = TR.run_sharded(rdrv, jobs, sc, "w", timeout=900, cpu_limit=40 if tier == "quick" else 900)
         viols, good = TR.validate_all("Trace_Reader", "Trace_Reader_work", res, ev, "C13", xmx="6g")
+        # archives of very many tiny members (directories; empty files; one-byte files that are checked): whatever is kept per member must
+        # be given back before the next one - the heap bound is a constant plus twice the input, and a header is several times its bytes
+        tj = []
+        for tag, mk, n, op in (("dirs", lambda i: arc.Member(level=0, method=b"-lhd-", name=b"d%d\\" % (i % 10), payload=b"").bytes(), 90000, "Z"),
+                               ("empty", lambda i: arc.Member(level=0, method=b"-lh0-", name=b"e", payload=b"").bytes(), 90000, "Z"),
+                               ("one", lambda i: arc.Member(level=0, method=b"-lh0-", name=b"f", payload=b"x").bytes(), 60000, "Zc")):
+            pth = os.path.join(sc, "tiny_%s.lzh" % tag)
+            with open(pth, "wb") as f:
+                for i in range(n if tier == "quick" else 3 * n):
+                    f.write(mk(i))
+                f.write(b"\0")
+            for kind in ("cbns", "cb", "path"):
+                tj.append(("exec - %s %s eod - 0 m %s" % (pth, kind, op), os.path.getsize(pth), n if tier == "quick" else 3 * n))
+        tres = TR.run_sharded(rdrv, [j for j, _, _ in tj], sc, "tiny", timeout=900, cpu_limit=200)
+        seen = 0
+        for jf, tr, n, p in tres:
+            lines = [json.loads(l) for l in open(tr) if l.startswith('{"e":"Drain"')]
+            jl = open(jf).read().splitlines()
+            for job, d in zip(jl, lines):
+                alen, want = [(a, w) for (j, a, w) in tj if j == job][0]
+                seen += 1
+                if d["n"] != want or d["peak"] > 8388608 + 2 * alen:
+                    dd = V.replay_dir("C13", "tiny-" + os.path.basename(jf))
+                    open(os.path.join(dd, "jobs.txt"), "w").write(job + "\n")
+                    viols.append({"replay": dd, "msg": "archive of %d tiny members (%d bytes): %d members walked, peak heap %d bytes, bound %d (%s)"
+                                                        % (want, alen, d["n"], d["peak"], 8388608 + 2 * alen, job.split()[2:4])})
+            if p.returncode != 0 or len(lines) != len(jl):
+                dd = V.replay_dir("C13", "tinyrun-" + os.path.basename(jf))
+                shutil.copy(jf, os.path.join(dd, "jobs.txt"))
+                viols.append({"replay": dd, "msg": "walking an archive of very many tiny members did not complete (exit %s): %s" % (p.returncode, (p.stderr or b"").decode(errors="replace")[-300:])})
+        ev.set("tiny_member_walks", seen)
         # a source that starts failing (read: -1, skip: 0) after k callbacks and goes on failing: every call still returns.  Only the
         # step budget and the driver's end are looked at here - what the members are after a source error is not a listed property
         ej = []
